@@ -421,7 +421,7 @@ def part_a(ctx, mods):
         # only the invariant that states the fact this design breaks (TLC stops at the first violation it meets)
         txt = "\n".join(ln for ln in open(cfg).read().splitlines() if not ln.startswith(("INVARIANT", "PROPERTY")) or ln.split()[1] == inv) + "\n"
         open(cfg, "w").write(txt)
-        rv = tlc.run("SafeWrap", cfg, ctx.scratch, workers=8, timeout=900, seed=ctx.seed)
+        rv = tlc.run("SafeWrap", cfg, ctx.scratch, workers=1, timeout=900, seed=ctx.seed)      # one worker: stops at the same first violation every time
         ctx.add_tlc("SafeWrap variant %s" % variant, rv)
         names = sorted({v["name"] for v in rv.violations})
         rejected[variant] = names
